@@ -92,6 +92,8 @@ type Engine struct {
 	WantWitness bool
 	pathConds   []string
 	nfresh      int
+	choiceSeen  map[string]bool
+	mapOrder    int // 0: ascending key order, 1: descending (harness-selected map iteration order)
 	nkeys       int
 	symKeys     map[int]symstr
 	snaps       map[*value]bool // read-only snapshot cells standing for container[symbolic index]
@@ -243,6 +245,8 @@ func (e *Engine) push(c string) {
 
 func (e *Engine) resetPath() {
 	e.nfresh = 0
+	e.choiceSeen = map[string]bool{}
+	e.mapOrder = 0
 	e.nkeys = 0
 	e.symKeys = map[int]symstr{}
 	e.captured = nil
@@ -444,6 +448,29 @@ func (e *Engine) Decide(c symv) bool {
 		return false
 	}
 	panic(pathAbort{"infeasible"})
+}
+
+// decideFree is Decide for a condition over a fresh, otherwise unconstrained choice variable: both sides are
+// feasible by construction, so no solver query is needed.
+func (e *Engine) decideFree(c symv) bool {
+	k := len(e.trace)
+	if k >= e.MaxDecisions {
+		panic(pathUnsupported{fmt.Sprintf("more than %d decisions on one path", e.MaxDecisions)})
+	}
+	e.Stats.Decisions++
+	d := true
+	if k < len(e.prefix) {
+		d = e.prefix[k]
+	} else {
+		e.work = append(e.work, append(append([]bool{}, e.trace...), false))
+	}
+	e.trace = append(e.trace, d)
+	if d {
+		e.push(c.t)
+	} else {
+		e.push("(not " + c.t + ")")
+	}
+	return d
 }
 
 // Assume adds a constraint to the path; prunes the path when it becomes infeasible.
